@@ -23,7 +23,7 @@ fn programs() -> Vec<Prog> {
         Prog {
             name: "P1",
             lines: vec![
-                "10 PRINT X;S$;A(1)",
+                "10 PRINT X;S$;A(1);A(7)",
                 "20 READ Q: PRINT Q",
                 "30 INPUT Z: PRINT Z",
                 "40 PRINT RND(1)",
@@ -43,6 +43,11 @@ fn programs() -> Vec<Prog> {
                 "910 END",
             ],
             extra: vec!["GOTO 900", "GOSUB 30", "PRINT FNA(2)"],
+        },
+        Prog {
+            name: "P4",
+            lines: vec!["10 FOR J=1 TO 2: FOR I=1 TO 2", "20 PRINT J;I;: NEXT I: NEXT J", "30 DIM B(2): PRINT B(2)"],
+            extra: vec!["FOR J=1 TO 9", "GOTO 20", "DIM B(20)", "B(9)=1"],
         },
         Prog {
             name: "P3",
